@@ -257,7 +257,8 @@ def r3_features(r, facts):
                 and f.forward_paths_hit([Loc(present, 0)], [nl], blockers=nexts) is None
             r.require(ok_order, 'build_sys/feature-order:%s' % n, 'Shared::new is reachable without %s having been verified' % n, f.where(f.term_loc(b)))
         else:
-            r.require(f.edge_dominates((b, present), nl), 'build_sys/feature-order:%s' % n, 'Shared::new is reachable without %s having been verified' % n, f.where(f.term_loc(b)))
+            # every path to Shared::new passes the test, and (feature-ignored below) none arrives over its `missing` edge
+            r.require(f.edge_dominates((b, present), nl) or f.dominates(f.term_loc(b), nl), 'build_sys/feature-order:%s' % n, 'Shared::new is reachable without %s having been verified' % n, f.where(f.term_loc(b)))
         hit = f.forward_paths_hit([Loc(missing, 0)], [nl])
         r.require(hit is None, 'build_sys/feature-ignored:%s' % n, 'a missing %s does not abort ring construction' % n, f.where(f.term_loc(b)))
         # Err is what is returned
@@ -336,6 +337,37 @@ def r4_config_coverage(r, facts):
                     flag_guard.setdefault(str(x[2]).rsplit('::', 1)[1], set()).update(guards | {'<unconditional>'} if not guards else guards)
         else:
             field_src.setdefault(pname, set()).update(srcs | guards)
+    # flags accumulated in a local first (`let mut flags = ..; if self.clamp { flags |= CLAMP }; parameters.flags = flags`):
+    # every integer local that flows into parameters.flags is a carrier; a flag constant counts where it enters a carrier,
+    # with the settings tested there
+    from .kernel import rvalue_operands
+    carriers = set()
+    changed = True
+    while changed:
+        changed = False
+        for loc, s in f.assigns():
+            lhs = s['lhs']
+            fl = [p for p in lhs['p'] if p['k'] == 'field']
+            is_flags = bool(fl) and (fl[-1].get('adt') or '').endswith('io_uring_params') and fl[-1]['name'] == 'flags'
+            if is_flags or (not lhs['p'] and lhs['l'] in carriers):
+                if s['rv']['k'] in ('use', 'bin', 'cast'):
+                    for op in rvalue_operands(s['rv']):
+                        if 'l' in op and not op['p'] and op['l'] not in carriers and f.locals[op['l']]['ty'] in ('u32', 'i32'):
+                            carriers.add(op['l'])
+                            changed = True
+    for loc, s in f.assigns():
+        lhs = s['lhs']
+        if lhs['p'] or lhs['l'] not in carriers or s['rv']['k'] not in ('use', 'bin', 'cast'):
+            continue
+        guards = {g[0] for g in config_guard_of(f, eb, loc)}
+        for op in rvalue_operands(s['rv']):
+            if op.get('k') == 'const' and 'IORING_SETUP_' in (op.get('def') or ''):
+                flag_guard.setdefault(op['def'].rsplit('::', 1)[1], set()).update(guards if guards else {'<unconditional>'})
+    if carriers:
+        # what the final store of the accumulated value contributed as "unconditional" above is not a statement about the flags
+        for fg, gs in flag_guard.items():
+            if len(gs) > 1:
+                gs.discard('<unconditional>')
     for name, row in CONFIG_TABLE.items():
         for pf in row['fields']:
             got = field_src.get(pf, set())
@@ -437,13 +469,15 @@ def r6_build(r, facts):
     calls = f.calls_to(BUILD_SYS)
     if not r.require(len(rings) == 1 and len(calls) == 1, 'Config::build', 'Ring aggregate / build_sys call not found', f.where()):
         return
-    cont = None
-    for si in f.enum_switches('std::ops::ControlFlow'):
-        cont = f.variant_edge(si, 'Continue')
+    # the Ok edge of the build_sys result: `?`, `match`, `if let` or an is_ok() flag
+    from .kernel import result_edges
+    re_ = result_edges(f, calls[0][1])
+    cont = re_[0] if re_ else None
     r.inst('Ring constructed on the Ok edge of build_sys', f.where(rings[0]))
     r.require(cont is not None and f.edge_dominates(cont, rings[0]), 'Config::build/ring', 'a Ring is constructed without build_sys having succeeded', f.where(rings[0]))
     e = eb.rvalue(f.at(rings[0])['rv'])
-    r.require(all(any(x[0] == 'call' and x[1].endswith('Try::branch') for x in subexprs(a)) for a in e[3]), 'Config::build/parts', 'the Ring is not built from the queues returned by build_sys', f.where(rings[0]))
+    from_sys = lambda a: any(x[0] == 'call' and (x[1].endswith('Try::branch') or x[1] == BUILD_SYS or (x[3] if len(x) > 3 else None) == BUILD_SYS) for x in subexprs(a))
+    r.require(all(from_sys(a) for a in e[3]), 'Config::build/parts', 'the Ring is not built from the queues returned by build_sys', f.where(rings[0]))
     r.floor(1)
 
 
